@@ -146,68 +146,96 @@ def _aliases(f: FuncInfo, name: str, target: str) -> bool:
 
 # ------------------------------------------------------------------------------------------------- D
 def _dispatch(model: Model, D: RuleResult):
+    """get_pure_function / make_sibling are evaluated abstractly over the kinds of argument the contract distinguishes
+    (domains/kinds.py): however the chain of tests is written, each kind must end in its wrapper (with the right object and method)
+    or be rejected."""
+    from ..domains.kinds import AObj, outcome, KindInterp, Closure
+    from ..domains.dictsem import Unsupported, Raised
     f = model.func(PF, "get_pure_function")
     p = f.params()[0]
-    from ..model import decision_steps
-    steps = decision_steps(f.node.body)
-    whens = [(ast.unparse(t), arm) for k, t, arm in steps if k == "when"]
-    requires = [ast.unparse(t) for k, t, arm in steps if k == "require"]
-    if not whens:
-        raise AnchorError("get_pure_function has no dispatch chain")
-    whole = ast.unparse(ast.Module(body=[x for k, t, arm in steps for x in (arm if k != "require" else [])], type_ignores=[]))
 
-    def arm_of(pred):
-        return [arm for t, arm in whens if pred(t)]
+    def obj(name, *classes):
+        return AObj(name, classes)
 
-    def returns(arm, pred):
-        return any(isinstance(x, ast.Return) and x.value is not None and pred(ast.unparse(x.value)) for st in arm for x in ast.walk(st))
-    # 1 PureFunction passthrough
-    a = arm_of(lambda t: "isinstance(%s, PureFunction)" % p in t)
-    if a and returns(a[0], lambda v: v == p):
-        D.ok(f.fq, "an existing PureFunction is returned unchanged")
-    else:
-        D.bad(f, f.node, "a PureFunction argument must be returned unchanged")
-    # 2 plain function / ScriptFunction
-    a = arm_of(lambda t: "inspect.isfunction(%s)" % p in t and "ScriptFunction" in t)
-    if a and returns(a[0], lambda v: "FunctionPureFunction(" in v):
-        D.ok(f.fq, "plain functions and torch.jit.ScriptFunction -> FunctionPureFunction")
-    else:
-        D.bad(f, f.node, "plain functions / scripted functions must map to FunctionPureFunction")
-    # 3 bound method or callable object: accepted (as a positive arm or as the requirement of a rejecting guard), everything else raises
-    accepts = [t for t in requires + [t for t, _ in whens] if "inspect.ismethod(%s)" % p in t and "__call__" in t]
-    rejects_rest = any("inspect.ismethod(%s)" % p in t and "__call__" in t for t in requires) or \
-        any(k == "do" and isinstance(arm[0], ast.Raise) for k, t, arm in steps[-1:])
-    if not accepts:
-        D.bad(f, f.node, "bound methods and callable objects are not both accepted")
-    else:
-        if "%s.__self__" % p in whole and "%s.__call__" % p in whole:
-            D.ok(f.fq, "bound method -> its __self__; callable object -> (object, object.__call__)")
+    def method_of(o):
+        return AObj("method of %s" % o.name, ismethod=True, attrs={"__self__": o, "__call__": AObj("method-wrapper")})
+
+    def callable_obj(name, *classes):
+        o = AObj(name, classes)
+        o.attrs["__call__"] = AObj("%s.__call__" % name, ismethod=True, attrs={"__self__": o, "__call__": AObj("method-wrapper")})
+        return o
+    em, nn_, both, other = obj("EM object", "EditableModule"), obj("nn.Module object", "torch.nn.Module"), \
+        obj("EM+nn.Module object", "EditableModule", "torch.nn.Module"), obj("other object")
+    pf = AObj("PureFunction instance", ("PureFunction",), attrs={"__call__": AObj("pf.__call__", ismethod=True)})
+    fn = AObj("plain function", isfunction=True, attrs={"__call__": AObj("method-wrapper")})
+    sf = AObj("scripted function", ("torch.jit.ScriptFunction",), attrs={"__call__": AObj("method-wrapper")})
+    cem, cnn, cother = callable_obj("callable EM object", "EditableModule"), callable_obj("callable nn.Module", "torch.nn.Module"), callable_obj("callable other object")
+    m_em, m_nn, m_both, m_other = method_of(em), method_of(nn_), method_of(both), method_of(other)
+    cases = [
+        (pf, ("same",), "an existing PureFunction is returned unchanged"),
+        (fn, ("made", "FunctionPureFunction", (fn,)), "plain function -> FunctionPureFunction"),
+        (sf, ("made", "FunctionPureFunction", (sf,)), "torch.jit.ScriptFunction -> FunctionPureFunction"),
+        (m_em, ("made", "EditableModulePureFunction", (em, m_em)), "bound method of an EditableModule -> EditableModulePureFunction(its __self__, method)"),
+        (m_nn, ("made", "TorchNNPureFunction", (nn_, m_nn)), "bound method of a torch.nn.Module -> TorchNNPureFunction(its __self__, method)"),
+        (m_both, ("made", "EditableModulePureFunction", (both, m_both)), "an object that is both is treated as EditableModule (its getparamnames decides)"),
+        (m_other, ("raise",), "a bound method of any other object raises"),
+        (cem, ("made", "EditableModulePureFunction", (cem, cem.attrs["__call__"])), "callable EditableModule object -> (object, object.__call__)"),
+        (cnn, ("made", "TorchNNPureFunction", (cnn, cnn.attrs["__call__"])), "callable nn.Module -> (object, object.__call__)"),
+        (cother, ("raise",), "any other callable object raises"),
+        (AObj("non-callable value"), ("raise",), "any other argument raises"),
+    ]
+    for arg, want, text in cases:
+        try:
+            kind, val = outcome(f.node, {p: arg})
+        except Unsupported as e:
+            D.undecided(f, f.node, "cannot interpret get_pure_function for a %s: %s" % (arg.name, e))
+            return
+        if want[0] == "same":
+            ok = kind == "returned" and val is arg
+        elif want[0] == "raise":
+            ok = kind == "raised"
         else:
-            D.bad(f, f.node, "object / method extraction of the callable is incomplete")
-        em = any("EditableModule" in t and returns(arm, lambda v: "EditableModulePureFunction(obj" in v) for t, arm in whens)
-        nn_when = any("torch.nn.Module" in t and returns(arm, lambda v: "TorchNNPureFunction(obj" in v) for t, arm in whens)
-        nn_req = any("isinstance(obj, torch.nn.Module)" in t for t in requires) and \
-            any(k == "do" and isinstance(arm[0], ast.Return) and "TorchNNPureFunction(obj" in ast.unparse(arm[0]) for k, t, arm in steps)
-        if em and (nn_when or nn_req):
-            D.ok(f.fq, "EditableModule -> EditableModulePureFunction, nn.Module -> TorchNNPureFunction")
+            ok = kind == "returned" and isinstance(val, tuple) and val[:2] == ("made", want[1]) and len(val[2]) == len(want[2]) \
+                and all(x is y for x, y in zip(val[2], want[2])) and not val[3]
+        if ok:
+            D.ok(f.fq, text)
         else:
-            D.bad(f, f.node, "object kinds are not mapped to their pure-function classes (%s)" % [t for t, _ in whens])
-        other_obj_raises = nn_req or any(k == "do" and isinstance(arm[0], ast.Raise) for k, t, arm in steps[-1:])
-        if other_obj_raises:
-            D.ok(f.fq, "any other object raises")
-        else:
-            D.bad(f, f.node, "an object that is neither EditableModule nor nn.Module must be rejected")
-    if rejects_rest:
-        D.ok(f.fq, "any other argument raises")
-    else:
-        D.bad(f, f.node, "the dispatch chain must end with a raising else-branch")
+            D.bad(f, f.node, "get_pure_function(<%s>): %s -- but it %s %s" % (arg.name, text, kind, val if kind == "raised" else _show_made(val)))
     # make_sibling
     ms = model.func(PF, "make_sibling")
-    src = ast.unparse(ms.node)
-    if "SingleSiblingPureFunction(pfuncs[0]" in src and "MultiSiblingPureFunction(pfuncs" in src and "raise TypeError" in src:
-        D.ok(ms.fq, "make_sibling: 0 functions -> TypeError, 1 -> SingleSibling, >1 -> MultiSibling")
-    else:
-        D.bad(ms, ms.node, "make_sibling no longer distinguishes zero / one / many parent functions")
+    vp = ms.vararg()
+    if vp is None:
+        raise AnchorError("make_sibling no longer takes *pfuncs")
+    fcn = AObj("decorated function", isfunction=True)
+    p0, p1 = AObj("parent 0", ("PureFunction",)), AObj("parent 1", ("PureFunction",))
+    for parents, want, text in (((), None, "0 functions -> TypeError"), ((p0,), "SingleSiblingPureFunction", "1 -> SingleSiblingPureFunction(parent, fcntocall=fcn)"),
+                                ((p0, p1), "MultiSiblingPureFunction", ">1 -> MultiSiblingPureFunction(parents, fcntocall=fcn)")):
+        try:
+            kind, val = outcome(ms.node, {vp: parents})
+            if kind == "returned" and isinstance(val, Closure):
+                try:
+                    val = KindInterp({}).apply(val, [fcn])
+                except Raised as e:
+                    kind, val = "raised", str(e)
+        except Unsupported as e:
+            D.undecided(ms, ms.node, "cannot interpret make_sibling for %d parent function(s): %s" % (len(parents), e))
+            return
+        if want is None:
+            ok = kind == "raised"
+        else:
+            first = val[2][0] if kind == "returned" and isinstance(val, tuple) and len(val) == 4 and val[2] else None
+            ok = kind == "returned" and isinstance(val, tuple) and val[:2] == ("made", want) and dict(val[3]).get("fcntocall") is fcn and len(val[2]) == 1 and \
+                (first is p0 if len(parents) == 1 else (isinstance(first, (tuple, list)) and len(first) == 2 and first[0] is p0 and first[1] is p1))
+        if ok:
+            D.ok(ms.fq, "make_sibling: " + text)
+        else:
+            D.bad(ms, ms.node, "make_sibling no longer distinguishes zero / one / many parent functions: %s -- but it %s %s" % (text, kind, _show_made(val)))
+
+
+def _show_made(v):
+    if isinstance(v, tuple) and len(v) == 4 and v[0] == "made":
+        return "%s(%s)" % (v[1], ", ".join([repr(x) for x in v[2]] + ["%s=%r" % kv for kv in v[3]]))
+    return repr(v)
 
 
 # ------------------------------------------------------------------------------------------------- U
